@@ -63,9 +63,11 @@ where
     }
 
     fn is_bareword(s: &str) -> bool {
+        // This has to agree with what the tokenizer reads back as a single
+        // bareword or boolean token. Anything else gets quoted.
         match s.chars().nth(0) {
             Some(c) => {
-                if !(c.is_ascii_alphabetic() || c == '_') {
+                if !c.is_ascii_alphabetic() {
                     return false;
                 }
             }
@@ -73,6 +75,12 @@ where
         };
         for c in s.chars() {
             if !(c.is_ascii_alphabetic() || c == '_') {
+                return false;
+            }
+        }
+        // The tokenizer splits these literal words off the front of a word.
+        for literal in ["NULL", "true", "false"] {
+            if s.starts_with(literal) && !(s == literal && literal != "NULL") {
                 return false;
             }
         }
